@@ -733,8 +733,11 @@ def _c09_racing(rec, m, next_id, pool, post, c):
     stops = [x.get("seq_start", 0) for x in rec.ops if x["op"][0] in ("shutdown", "kill", "with_exit")]
     cb_stop = any(x["op"][0] in ("callback", "late_callback") and len(x["op"]) > 2 and str(x["op"][2]).startswith("shutdown")
                   for x in rec.ops)
+    # (op granularity only: in line-granular executions another caller's replacement may run
+    # between the release of the executor lock and the return statement - legitimate, and
+    # indistinguishable from a replacement during the call)
     dead = [(o["t"], o["op"][1], o["id"]) for o in calls
-            if (o.get("shutdown") or o.get("broken")) and not cb_stop
+            if (o.get("shutdown") or o.get("broken")) and not cb_stop and not rec.policy.get("lines")
             and not any(st < o.get("seq_end", 0) for st in stops)]
     if dead:
         # get_reusable_executor holds the executor lock from its decision to its return: what
